@@ -410,6 +410,62 @@ static void run_table(Json& js, vh::Rng& rng, int reps) {
                     }
                 }
             }
+            // masks on longer arrays: a single selected element at every position in turn, and sparse random masks
+            if (n == 2) {
+                for (int len : {8, 17, 24}) {
+                    const AV lR = gen(rng, false, len, false), lC = gen(rng, true, len, false);
+                    for (int pos = -2; pos < len; ++pos) {
+                        std::vector<long> mask(len, 0);
+                        if (pos >= 0) {
+                            mask[pos] = 1;
+                        } else {
+                            for (int q = 0; q < 3; ++q) {
+                                mask[rng.range(0, len - 1)] = 1;
+                            }
+                        }
+                        const std::vector<bool> mb(mask.begin(), mask.end());
+                        for (int c = 0; c < 2; ++c) {
+                            const AV& a = c ? lC : lR;
+                            AV r;
+                            const char* o = vh::outcome([&] { r = c ? from(mkC(a)[mb]) : from(mkR(a)[mb]); });
+                            js.begin("Select").str("kind", "mask");
+                            put(js, "a", a);
+                            js.arr("sel", mask).str("o", o);
+                            put(js, "r", r);
+                            js.end();
+                        }
+                    }
+                }
+                // concatenate() of long operands (compared here, element by element and bit by bit)
+                for (int c = 0; c < 2; ++c) {
+                    const int l1 = (int)rng.range(4000, 9000), l2 = (int)rng.range(0, 3), l3 = (int)rng.range(4096, 5000);
+                    bool same = true;
+                    if (c) {
+                        arr_cmplx p1(l1), p2(l2), p3(l3);
+                        for (int i = 0; i < l1; ++i) { p1[i] = cmplx_t(rng.gauss(), rng.gauss()); }
+                        for (int i = 0; i < l2; ++i) { p2[i] = cmplx_t(rng.gauss(), rng.gauss()); }
+                        for (int i = 0; i < l3; ++i) { p3[i] = cmplx_t(rng.gauss(), rng.gauss()); }
+                        const arr_cmplx z = concatenate(p1, p2, p3);
+                        same = z.size() == l1 + l2 + l3;
+                        for (int i = 0; same && i < z.size(); ++i) {
+                            const cmplx_t w = i < l1 ? p1[i] : i < l1 + l2 ? p2[i - l1] : p3[i - l1 - l2];
+                            same = std::memcmp(&w, &z[i], sizeof(w)) == 0;
+                        }
+                    } else {
+                        arr_real p1(l1), p2(l2), p3(l3);
+                        for (int i = 0; i < l1; ++i) { p1[i] = rng.gauss(); }
+                        for (int i = 0; i < l2; ++i) { p2[i] = rng.gauss(); }
+                        for (int i = 0; i < l3; ++i) { p3[i] = rng.gauss(); }
+                        const arr_real z = concatenate(p1, p2, p3);
+                        same = z.size() == l1 + l2 + l3;
+                        for (int i = 0; same && i < z.size(); ++i) {
+                            const double w = i < l1 ? p1[i] : i < l1 + l2 ? p2[i - l1] : p3[i - l1 - l2];
+                            same = std::memcmp(&w, &z[i], sizeof(w)) == 0;
+                        }
+                    }
+                    js.begin("Resid").str("clause", "C03.concat-long").boolean("cplx", c).num("err_milli", same ? 0 : 1000000000L).end();
+                }
+            }
             // selections
             for (int c = 0; c < 2; ++c) {
                 const AV& a = c ? aC : aR;
